@@ -92,6 +92,17 @@ template <class Value> class HashedSearch {
 
     typename Value::Weights &UnknownUnigram() { return unigram_.Unknown(); }
 
+    // Default weights for <unk> when the ARPA file does not list it.  The sign bit of a stored probability
+    // says "does not extend left"; MarkExtends cleared it if some n-gram ends in <unk>, so it is kept.
+    void SetUnknownMissing(float prob) {
+      typename Value::Weights &unk = unigram_.Unknown();
+      util::FloatEnc old;
+      old.f = unk.prob;
+      unk.backoff = 0.0;
+      unk.prob = prob;
+      if (!(old.i & util::kSignBit)) util::UnsetSign(unk.prob);
+    }
+
     UnigramPointer LookupUnigram(WordIndex word, Node &next, bool &independent_left, uint64_t &extend_left) const {
       extend_left = static_cast<uint64_t>(word);
       next = extend_left;
